@@ -57,6 +57,7 @@ _OK_PARAM_RE = re.compile(r"^[a-z0-9_.-]+$", re.I)
 _gzip_header = b"\x1f\x8b\x08\x00\x00\x00\x00\x00\x02\xff"
 
 _CTL_OR_SPACE_RE = re.compile(r"[\x00-\x20]")
+_COLON_IN_FIRST_SEGMENT_RE = re.compile(r"[^/?#]*:")
 
 
 def _percent_encode_match(match):
@@ -1377,6 +1378,12 @@ class Response:
         # https://github.com/Pylons/webob/security/advisories/GHSA-mg3v-6m49-jhp3
         if value.startswith("//"):
             value = f"/%2f{value[2:]}"
+        elif _COLON_IN_FIRST_SEGMENT_RE.match(value):
+            # urljoin() recognises more schemes than SCHEME_RE does, and
+            # returns such a value unchanged. RFC 3986 section 4.2: a
+            # relative-path reference whose first segment contains a colon
+            # must be preceded by a dot-segment.
+            value = "./" + value
         new_location = urlparse.urljoin(_request_uri(environ), value)
 
         return new_location
